@@ -155,6 +155,19 @@ def body_cache(case, rec):
             for sfx in (".fai", ".agp"):
                 os.utime(path.with_name(path.name + sfx), ns=(mt - back, mt - back))
         fai = FastaIndex(path, case["buffer"])
+        if case.get("dup"):
+            # two records of one name: the tools refuse such a file; if they ever do not, what they write still has to be valid
+            try:
+                fai.auto_load()
+            except Exception:  # noqa: BLE001
+                rec.note(case, nt, {"duplicate_names_refused"})
+                return
+            agp = path.with_name(path.name + ".agp")
+            if agp.exists():
+                msg = ref.agp_validate(agp.read_text())
+                if msg:
+                    raise Violation(f"cache AGP written for a FASTA with two records named alike: {msg}")
+            return
         must(fai.auto_load, what="auto_load")
         text = path.with_name(path.name + ".agp").read_text()
         msg = ref.agp_validate(text, {r["name"]: len(r["seq"]) for r in recs if len(r["seq"])})
@@ -186,6 +199,13 @@ def cache_cases(draw):
     f = draw(gen.fasta_file(max_records=4))
     f["records"] = [r for r in f["records"] if not r[0].startswith("#")] or [["r1", "", "ACGT", 60, "\n"]]
     case = {"fasta": f, "buffer": draw(st.sampled_from([1, 3, 64, 250000]))}
+    if draw(st.integers(0, 7)) == 0:
+        i = draw(st.integers(0, len(f["records"]) - 1))
+        dup = list(draw(gen.fasta_record(98, min_len=1)))
+        dup[0] = f["records"][i][0]
+        f["records"].insert(draw(st.sampled_from([i + 1, len(f["records"])])), dup)
+        case["dup"] = True
+        return case
     if draw(st.booleans()):
         g = draw(gen.fasta_file(max_records=3, min_len=1))
         g["records"] = [r for r in g["records"] if not r[0].startswith("#")] or [["r1", "", "ACGTAC", 60, "\n"]]
